@@ -129,8 +129,115 @@ fn first_diff(a: &Snap, b: &Snap) -> String {
   format!("{} vs {} names", a.len(), b.len())
 }
 
+pub const OPERATOR_FORMS: [&str; 38] = ["+", "-", "*", "/", "%", "^", "**", "·", "\\", "==", "!=", "<", "<=", ">", ">=", "&&", "||", "⊕", "∪", "∩", "∖", "Δ", "⊆", "⊇", "⊂", "⊃", "∈", "∉", "⋈", "⟕", "⟖", "⟗", "⋉", "▷", "≠", "-x", "!x", "x'"];
+
+/// the units of the kernel family: every registered function by name, then every operator spelling
+pub fn kernel_items() -> Vec<String> {
+  let mut v: Vec<String> = stdlib_functions().into_iter().map(|s| s.to_string()).collect();
+  for o in OPERATOR_FORMS { v.push(format!("operator {}", o)); }
+  v
+}
+
+/// every function compiler the standard library registers (what a call `name(args)` resolves to), sorted
+pub fn stdlib_functions() -> Vec<&'static str> {
+  let mut v: Vec<&'static str> = inventory::iter::<mech_core::FunctionCompilerDescriptor>.into_iter().map(|d| d.name).collect();
+  v.sort(); v.dedup();
+  v
+}
+
+pub const KERNEL_POOL: [(&str, &str); 20] = [
+  ("a", "a := 3.0"), ("h", "h := 0.5"), ("b", "b := [1 2 3]"), ("cv", "cv := [1; 2; 3]"), ("c", "c := [1 2; 3 4]"), ("d", "d := [4 3; 6 3]"), ("e", "e := [1 2 3; 4 5 6]"), ("cw", "cw := [5; 6]"),
+  ("g", "g := {1,2,3}"), ("gg", "gg := {2,3,4}"), ("t", "t := |x<f64> y<f64>| 1 2 | 3 4 |"), ("tt", "tt := |x<f64> z<f64> w<f64>| 1 5 6 | 3 7 8 | 3 9 9 |"),
+  ("s", "s := \"ab\""), ("bo", "bo := true"), ("bv", "bv := [true false true]"), ("u", "u<u8> := 5"), ("ub", "ub<[u8]> := [1 2 3]"), ("k", "k<u64> := 2"),
+  ("x", "~x := 2.0"), ("y", "~y := [4 5 6]"),
+];
+
+impl C19 {
+  /// one standard-library function: every call of arity 1 and 2 over the operand pool (arity 3 over the numeric operands) that evaluates is
+  /// kept; the program (pool + accepted calls, no assignment statement) is stepped: re-evaluation must change nothing, one request for n
+  /// steps must equal n single steps, and (with two assignments appended) two interpreters / processes must agree
+  fn kernel_unit(&mut self, fi: usize, unit: u64, out: &mut WorkerOut) {
+    let items = kernel_items();
+    let fname: &str = &items[fi];
+    let names: Vec<&str> = KERNEL_POOL.iter().map(|p| p.0).collect();
+    let mut calls: Vec<String> = vec![];
+    if let Some(op) = fname.strip_prefix("operator ") {
+      match op {
+        "-x" | "!x" => for x in &names { calls.push(format!("{}{}", &op[..op.len() - 1], x)); },
+        "x'" => for x in &names { calls.push(format!("{}'", x)); },
+        _ => for x in &names { for y in &names { calls.push(format!("{} {} {}", x, op, y)); } },
+      }
+    } else {
+      for x in &names { calls.push(format!("{}({})", fname, x)); }
+      for x in &names { for y in &names { calls.push(format!("{}({}, {})", fname, x, y)); } }
+      for x in ["a", "h", "b", "c"] { for y in ["a", "h", "b", "c"] { for z in ["a", "k", "b"] { calls.push(format!("{}({}, {}, {})", fname, x, y, z)); } } }
+    }
+    // a call of an op-assignment kernel by name is an op-assignment in function-call spelling: such programs are not in the no-op class
+    let assigns = fname.contains("-assign");
+    // discovery in a scratch session
+    let mut scratch = Session::new();
+    for (_, d) in KERNEL_POOL.iter() { scratch.run(d); }
+    let mut kept: Vec<String> = vec![];
+    for (i, c) in calls.iter().enumerate() {
+      let st = format!("r{} := {}", letters(i), c);
+      if scratch.run(&st).is_value() { kept.push(st); }
+    }
+    drop(scratch);
+    out.evaluations += 1;
+    out.add("stdlib_calls_tried", calls.len() as u64);
+    if kept.is_empty() { out.set("stdlib_functions_without_an_accepted_call", fname); return; }
+    let build = |extra: &[&str]| -> Option<Session> {
+      let mut s = Session::new();
+      for (_, d) in KERNEL_POOL.iter() { if !s.run(d).is_value() { return None; } }
+      for st in &kept { if !s.run(st).is_value() { return None; } }
+      for st in extra { if !s.run(st).is_value() { return None; } }
+      Some(s)
+    };
+    let maxn = self.tier.pick(2u64, 3u64);
+    let mut digest_src = String::new();
+    for (cls, extra) in [(if assigns { "with-assignment-call" } else { "pure" }, vec![]), ("with-assignment", vec!["x = 5.0", "y[2] = 9"])] {
+      let locus = format!("{}:stdlib:{}", cls, fname);
+      let case = format!("operand pool; {}{}", kept.iter().take(6).cloned().collect::<Vec<_>>().join(" ; "), if kept.len() > 6 { format!(" ; ... ({} accepted calls of {})", kept.len(), fname) } else { String::new() });
+      let mut sa = match build(&extra) { Some(s) => s, None => { out.count("stdlib_program_not_reproducible"); continue; } };
+      out.nontrivial += 1;
+      out.add("stdlib_calls_stepped", kept.len() as u64);
+      out.set("stdlib_functions_stepped", fname);
+      let s0 = sa.snapshot();
+      let mut singles: Vec<Snap> = vec![s0.clone()];
+      let mut ok = true;
+      for k in 1..=maxn {
+        if let Err(e) = step(&mut sa, 1) { out.fail(format!("C19|step-failed|{}", locus), case.clone(), format!("step(0,1) #{}: {}", k, e)); ok = false; break; }
+        singles.push(sa.snapshot());
+      }
+      if !ok { continue; }
+      if let Some(mut sb) = build(&extra) {
+        let mut rep = vec![sb.snapshot()];
+        for _ in 1..=maxn { if step(&mut sb, 1).is_err() { break; } rep.push(sb.snapshot()); }
+        for (k, (x, y)) in singles.iter().zip(rep.iter()).enumerate() { if x != y { out.fail(format!("C19|repeat-dependent|{}", locus), case.clone(), format!("two interpreters differ after {} steps: {}", k, first_diff(x, y))); break; } }
+      }
+      for n in 2..=maxn {
+        if let Some(mut sc) = build(&extra) {
+          match step(&mut sc, n) {
+            Ok(()) => { let t = sc.snapshot(); if t != singles[n as usize] { out.fail(format!("C19|n-singles-differ|{}", locus), case.clone(), format!("step(0,{}) vs {} single steps: {}", n, n, first_diff(&t, &singles[n as usize]))); } }
+            Err(e) => out.fail(format!("C19|step-failed|{}", locus), case.clone(), format!("step(0,{}): {}", n, e)),
+          }
+        }
+      }
+      if cls == "pure" {
+        for (k, s) in singles.iter().enumerate().skip(1) { if s != &s0 { out.fail(format!("C19|noop-violated|{}", locus), case.clone(), format!("after {} steps: {}", k, first_diff(s, &s0))); break; } }
+      }
+      digest_src.push_str(&format!("{:?}", singles));
+    }
+    out.extra.push(json!({"unit": unit, "digest": format!("{:016x}", fnv(digest_src.as_bytes()))}));
+    if fi % 23 == 0 { out.sample(json!({"stdlib_function": fname, "accepted_calls": kept.iter().take(5).collect::<Vec<_>>()})); }
+  }
+}
+
+fn letters(mut i: usize) -> String { let mut s = String::new(); loop { s.push((b'a' + (i % 26) as u8) as char); i /= 26; if i == 0 { break; } } s }
+
 impl UnitRunner for C19 {
   fn unit(&mut self, _payload: &str, unit: u64, out: &mut WorkerOut) {
+    if unit as usize >= self.progs.len() { let fi = unit as usize - self.progs.len(); return self.kernel_unit(fi, unit, out); }
     let prog = &self.progs[unit as usize];
     let text: Vec<&str> = prog.iter().map(|i| self.al[*i].text).collect();
     let case = text.join(" ; ").replace('\n', " ");
@@ -188,10 +295,11 @@ impl Check for C19 {
   fn level(&self) -> &'static str { "model_checking" }
   fn unit_budget(&self, _t: Tier) -> Duration { Duration::from_secs(30) }
   fn drive(&mut self, tier: Tier, cfg: &PoolCfg, rep: &mut Report) {
-    let n = self.progs.len() as u64;
+    let nf = kernel_items().len() as u64;
+    let n = self.progs.len() as u64 + nf;
     let progs = self.progs.clone();
     let al = self.al.clone();
-    rep.describe = Some(Box::new(move |_p, u| ("step".to_string(), progs[u as usize].iter().map(|i| al[*i].text).collect::<Vec<_>>().join(" ; ").replace('\n', " "))));
+    rep.describe = Some(Box::new(move |_p, u| if u as usize >= progs.len() { ("step:stdlib".to_string(), format!("calls of {}", kernel_items()[u as usize - progs.len()])) } else { ("step".to_string(), progs[u as usize].iter().map(|i| al[*i].text).collect::<Vec<_>>().join(" ; ").replace('\n', " ")) }));
     // two passes in two sets of worker processes (different hash seeds and addresses)
     let mut digests: Vec<Vec<(u64, String)>> = vec![vec![], vec![]];
     for pass in 0..2 {
@@ -208,7 +316,7 @@ impl Check for C19 {
     let mut cross = 0u64;
     for (u, d) in &digests[0] {
       if let Some(e) = d1.get(u) { cross += 1; if e != d {
-        let text = self.progs[*u as usize].iter().map(|i| self.al[*i].text).collect::<Vec<_>>().join(" ; ").replace('\n', " ");
+        let text = if *u as usize >= self.progs.len() { format!("operand pool; every accepted call of {}", kernel_items()[*u as usize - self.progs.len()]) } else { self.progs[*u as usize].iter().map(|i| self.al[*i].text).collect::<Vec<_>>().join(" ; ").replace('\n', " ") };
         rep.out.failures.push(Failure { key: "C19|process-dependent|snapshots".into(), case: text, detail: "the snapshots after 0..n steps differ between two processes".into(), payload: "p0".into(), unit: *u });
       } }
     }
@@ -223,6 +331,10 @@ impl Check for C19 {
     rep.rule = format!("{} programs = every dependency-respecting sequence of up to {} statements from a {}-statement alphabet (defines of every value class: arithmetic, matrix of variables, slices, ranges, sets and comprehensions, tables and columns, records, conversions, strings, user function, match, state machine, joins; mutable defines and = += *= indexed assignments); \
       for each: snapshots after 0..{} single step(0,1) calls, the same in a second interpreter, step(0,n) in a fresh interpreter, everything repeated in a second worker process; a state is a snapshot, a transition a step call; evaluations = programs; non-trivial = programs whose statements all evaluated", n, tier.pick(3, 4), self.al.len(), steps_per_prog);
     rep.assumptions = vec!["programs containing a statement that fails are not stepped (counted)".into(), "what re-evaluation should compute for programs with assignment is not judged, only determinism and n-singles = one-n".into(), "states/transitions are snapshots and step calls on the real interpreter; there is no separate model".into()];
+    let stepped = rep.out.sets.get("stdlib_functions_stepped").map(|s| s.len()).unwrap_or(0);
+    rep.cov("stdlib_family", json!({"functions_registered_plus_operator_forms": nf, "functions_with_an_accepted_call": stepped, "operand_pool": KERNEL_POOL.iter().map(|p| p.1).collect::<Vec<_>>(),
+      "calls": "every call f(x), f(x,y) over the pool and f(x,y,z) over the numeric operands that evaluates; pure and with two assignments appended"}));
+    if stepped < 60 { rep.vacuity.push(format!("only {} standard-library functions had an accepted call", stepped)); }
     if rep.out.nontrivial < 200 { rep.vacuity.push("too few programs evaluated".into()); }
   }
 }
